@@ -399,13 +399,24 @@ class C03(Check):
     case_timeout = 60.0
     session_every = 6          # every n-th generated case is a session on two real peer connections
     level_note = (
-        "Theorems are about Model/Nego.v (hand transcription of rtcpeerconnection.py negotiation code on structured "
-        "descriptions; SDP text is C09, the JSEP state machine is C14). Tie: differential runs of the real helper "
-        "functions on generated codec lists, the real CODECS/HEADER_EXTENSIONS tables (checked against "
-        "Nego.tables_ok every run), and sessions on pairs of real RTCPeerConnection objects whose SDP is parsed by "
-        "aiortc's parser and compared call by call with the model. PARTIAL: the last sentence of the property "
-        "(both sides reach 'connected', channels open and carry messages) is ICE/DTLS/SCTP runtime behaviour and is "
-        "only observed on real loop-back pairs, not proved.")
+        "Theorems are about Model/Nego.v, a hand transcription of the negotiation code of rtcpeerconnection.py "
+        "(52-147, 183-193, 259-272, 456-511, 548-602, 636-745, 782-875, 877-1070, 1155-1214, 1347-1412), "
+        "rtcrtptransceiver.setCodecPreferences, codecs.get_capabilities and sdp.parse_h264_profile_level_id, on "
+        "structured descriptions (SDP text is C09, the JSEP state machine is C14). Proved for ALL inputs: the helper "
+        "laws (find_common_codecs, filter_preferred_codecs, header extensions, directions, allocate_mid); for every "
+        "session (any interleaving of configuration calls and exchanges in either direction): answer mirrors offer, "
+        "answered codecs/feedback/extensions drawn from the offer, definite DTLS role, complementary current "
+        "directions, a well-formedness invariant, and C03_exchange_succeeds (the next exchange returns Ok) under "
+        "tables_ok(T) - evaluated on the real CODECS/HEADER_EXTENSIONS every run - and compatible capability-drawn "
+        "codec preferences. Tie: differential runs of the real helper functions on generated codec lists, the real "
+        "tables, and sessions on pairs of real RTCPeerConnection objects whose SDP is parsed by aiortc's parser and "
+        "compared call by call (descriptions, transceiver/sctp/transport state) with the model. PARTIAL: (1) the last "
+        "sentence of the property (both sides reach 'connected', channels open and carry messages) is ICE/DTLS/SCTP "
+        "runtime behaviour, only observed on real loop-back pairs; (2) complementarity of the DTLS/ICE roles of the two "
+        "transports and 'no negotiated section on a discarded transport' are checked by the oracle on the real "
+        "objects and by two computed witnesses, not proved for all sessions; (3) alwaysNegotiateDataChannels, "
+        "transceiver.stop(), rollback and pranswer are not modelled; payloadType None, non-ASCII strings and MIME "
+        "types without exactly one '/' are outside the generator.")
     rule = ("layer 1: random and table-derived codec/extension/capability lists through filter_preferred_codecs, "
             "find_common_codecs, find_common_header_extensions, is_codec_compatible, direction functions, "
             "allocate_mid, setCodecPreferences; layer 2: sessions over 0-3 transceivers per side x kind x 4 directions "
